@@ -853,6 +853,11 @@ class SymReal:
     def __neg__(self):
         return SymReal(-self.t)
 
+    def __truediv__(self, o):
+        if isinstance(o, (SymReal, SymInt)):
+            raise Unsupported("division by a symbolic value")
+        return self * (Fraction(1) / Fraction(o))
+
     def _c(self, o, f):
         r = _rl(o)
         if r is None:
